@@ -185,7 +185,7 @@ func mintID(ts tokenSpec) (tok string, sigOK bool) {
 	}
 	switch ts.Class {
 	case "good", "audAbsent", "audForeign", "audNearMiss", "audArrayWithClient", "audForeignAzpClient",
-		"nonceAbsent", "nonceForeign", "nonceEmpty", "nonceNonString", "expired":
+		"nonceAbsent", "nonceForeign", "nonceNearMiss", "nonceEmpty", "nonceNonString", "expired":
 		// claims differ (set by the caller), the signature is honest
 		if ts.SignKey == "k3" {
 			return rs("k3", ks.k3), true
